@@ -11,7 +11,7 @@ import Upnp.Lemmas.C03Parse
 import Upnp.Spec.C03Cfg
 namespace Upnp.C04
 open Upnp PyDict Upnp.C03 Upnp.C16
-variable {σ : Type} [DecidableEq σ] (ipv : σ → Option Nat) (skip : σ → Bool) (src : σ)
+variable {σ : Type} [DecidableEq σ] (ipv : σ → Option Nat) (skip : σ → Bool) (src : σ) (mode : CbMode)
 
 /-- the volatile-header list and the private prefix the source uses now are the ones the judge uses -/
 theorem gen_cfg_pinned : genCfg = specCfg := by decide
@@ -24,7 +24,7 @@ theorem gen_cfg_pinned : genCfg = specCfg := by decide
     known; anything else never; stored headers are replaced before the callback and `combined_headers` is the
     search headers overlaid by the advertisement headers. -/
 theorem c04_step (le : σ → σ → Bool) {s : Tracker σ} (hi : Inv s) (e : Ev σ) (hw : e.wf = true) :
-    stepOk ipv skip src e (snapOf le s) (modelObs ipv skip src s e) = true := by
+    stepOk ipv skip src mode e (snapOf le s) (modelObs ipv skip src mode s e) = true := by
   cases e with
   | purge now => simp [stepOk, modelObs, step, flavours_cbsOf]
   | noise ts => simp [stepOk, modelObs, step, flavours_cbsOf]
@@ -41,9 +41,9 @@ theorem c04_step (le : σ → σ → Bool) {s : Tracker σ} (hi : Inv s) (e : Ev
           exact ⟨_, rfl⟩
       obtain ⟨ty, hty⟩ := hty
       cases hk : m.kind with
-      | search => exact search_sighting_ok ipv skip src le hi m hw hk u loc ty hs hty
-      | alive => exact alive_sighting_ok ipv skip src le hi m hw hk u loc ty hs hty
-      | update => exact update_sighting_ok ipv skip src le hi m hw hk u loc ty hs hty
+      | search => exact search_sighting_ok ipv skip src mode le hi m hw hk u loc ty hs hty
+      | alive => exact alive_sighting_ok ipv skip src mode le hi m hw hk u loc ty hs hty
+      | update => exact update_sighting_ok ipv skip src mode le hi m hw hk u loc ty hs hty
       | byebye => simp [Msg.sighting?, hk] at hs
     | none =>
       cases hb : m.byebye? with
@@ -57,7 +57,7 @@ theorem c04_step (le : σ → σ → Bool) {s : Tracker σ} (hi : Inv s) (e : Ev
           cases hu : m.udn <;> cases ht : m.ty <;> simp [hu, ht] at hb
           exact ⟨_, rfl⟩
         obtain ⟨ty, hty⟩ := hty
-        exact byebye_ok ipv skip src le hi m hw hk u ty hb hty
+        exact byebye_ok ipv skip src mode le hi m hw hk u ty hb hty
       | none =>
         unfold stepOk modelObs
         simp only [flavours_cbsOf, hs, hb, step]
@@ -70,30 +70,55 @@ theorem c04_step (le : σ → σ → Bool) {s : Tracker σ} (hi : Inv s) (e : Ev
 /-- the trace the judge reads, produced by the model -/
 def traceOf (le : σ → σ → Bool) : Tracker σ → List (Ev σ) → List (Ev σ × Snap σ × Obs σ)
   | _, [] => []
-  | s, e :: r => (e, snapOf le s, modelObs ipv skip src s e) :: traceOf le (step ipv skip s e).1 r
+  | s, e :: r => (e, snapOf le s, modelObs ipv skip src mode s e) :: traceOf le (step ipv skip s e).1 r
 
 /-- **c04_history** — for every history of well-formed events the judge `C04.ok` accepts the model's trace. -/
 theorem c04_history (le : σ → σ → Bool) (evs : List (Ev σ)) (hw : ∀ e ∈ evs, e.wf = true) :
-    ok ipv skip src (traceOf ipv skip src le {} evs) = true := by
-  suffices H : ∀ s : Tracker σ, Inv s → ok ipv skip src (traceOf ipv skip src le s evs) = true from H _ inv_empty
+    ok ipv skip src mode (traceOf ipv skip src mode le {} evs) = true := by
+  suffices H : ∀ s : Tracker σ, Inv s → ok ipv skip src mode (traceOf ipv skip src mode le s evs) = true from H _ inv_empty
   induction evs with
   | nil => intro s _; rfl
   | cons e r ih =>
     intro s hi
     simp only [traceOf, ok, List.all_cons, Bool.and_eq_true]
-    exact ⟨c04_step ipv skip src le hi e (hw e List.mem_cons_self),
+    exact ⟨c04_step ipv skip src mode le hi e (hw e List.mem_cons_self),
            ih (fun x hx => hw x (List.mem_cons_of_mem _ hx)) _ (inv_step ipv skip hi e)⟩
 
 /-- **c04_history_raw** — the same with the model starting at the headers the listener receives (decoded packets on
     either socket and explicit purges), through dispatch, string layer and tracker. -/
-theorem c04_history_raw (cfg : Cfg) (le : String → String → Bool) (ops : List Parse.RawOp)
+theorem c04_history_raw (cfg : Cfg) (mode : CbMode) (le : String → String → Bool) (ops : List Parse.RawOp)
     (h : ∀ o ∈ ops, o.decoded cfg) :
-    ok Parse.ipVersion (Parse.skipHdr cfg) "_source"
-      (traceOf Parse.ipVersion (Parse.skipHdr cfg) "_source" le {} (ops.map (Parse.RawOp.ev cfg))) = true := by
+    ok Parse.ipVersion (Parse.skipHdr cfg) "_source" mode
+      (traceOf Parse.ipVersion (Parse.skipHdr cfg) "_source" mode le {} (ops.map (Parse.RawOp.ev cfg))) = true := by
   apply c04_history
   intro e he
   obtain ⟨o, ho, rfl⟩ := List.mem_map.mp he
   exact Parse.RawOp.ev_wf cfg o (h o ho)
+
+/-- **c04_history_text** — the run-time judge reads every message in the property text's reading of its location
+    (`Parse.textReading`).  Whenever that reading agrees with the code's on every message of a history the judge accepts the
+    model's trace; the hypothesis fails exactly on the inputs of the open findings F03a / F04a. -/
+theorem c04_history_text (cfg : Cfg) (mode : CbMode) (le : String → String → Bool) (ops : List Parse.RawOp)
+    (h : ∀ o ∈ ops, o.decoded cfg) (hagree : ∀ o ∈ ops, Parse.textReading (o.ev cfg) = o.ev cfg) :
+    ok Parse.ipVersion (Parse.skipHdr cfg) "_source" mode
+      ((traceOf Parse.ipVersion (Parse.skipHdr cfg) "_source" mode le {} (ops.map (Parse.RawOp.ev cfg))).map
+        fun x => (Parse.textReading x.1, x.2)) = true := by
+  have hid : ∀ (s : Tracker String) (evs : List (Ev String)), (∀ e ∈ evs, Parse.textReading e = e) →
+      (traceOf Parse.ipVersion (Parse.skipHdr cfg) "_source" mode le s evs).map (fun x => (Parse.textReading x.1, x.2)) =
+      traceOf Parse.ipVersion (Parse.skipHdr cfg) "_source" mode le s evs := by
+    intro s evs
+    induction evs generalizing s with
+    | nil => intro _; rfl
+    | cons e r ih =>
+      intro hh
+      simp only [traceOf, List.map_cons, hh e List.mem_cons_self]
+      congr 1
+      exact ih _ (fun x hx => hh x (List.mem_cons_of_mem _ hx))
+  rw [hid _ _ (by
+    intro e he
+    obtain ⟨o, ho, rfl⟩ := List.mem_map.mp he
+    exact hagree o ho)]
+  exact c04_history_raw cfg mode le ops h
 
 /-- **same_headers_differ_spec** — the early-exit loop over the two case maps answers `True` exactly when some
     header of the stored map, not private (`_…`) and not volatile, is present in the new map with a different value. -/
@@ -292,9 +317,12 @@ example :
     (run ipv skip {} evs).map (fun x => x.2.2.map (·.source)) =
       [some .advAlive, none, some .advAlive, some .searchAlive, some .searchAlive, some .searchChanged,
        some .advUpdate, none, some .advByebye, none] ∧
-    ok ipv skip 0 (traceOf ipv skip 0 le {} evs) = true ∧
-    ok ipv skip 0 ((traceOf ipv skip 0 le {} evs).zipIdx.map fun x =>
-      if x.2 = 1 then (x.1.1, x.1.2.1, { x.1.2.2 with cbs := cbsOf 0 (some ⟨1, 1, .advAlive, newDev 0⟩) }) else x.1) = false := by
+    ok ipv skip 0 .both (traceOf ipv skip 0 .both le {} evs) = true ∧
+    ok ipv skip 0 .sync (traceOf ipv skip 0 .sync le {} evs) = true ∧
+    ok ipv skip 0 .async (traceOf ipv skip 0 .async le {} evs) = true ∧
+    ok ipv skip 0 .sync (traceOf ipv skip 0 .both le {} evs) = false ∧
+    ok ipv skip 0 .both ((traceOf ipv skip 0 .both le {} evs).zipIdx.map fun x =>
+      if x.2 = 1 then (x.1.1, x.1.2.1, { x.1.2.2 with cbs := cbsOf 0 .both (some ⟨1, 1, .advAlive, newDev 0⟩) }) else x.1) = false := by
   decide
 
 end Upnp.C04
